@@ -74,7 +74,7 @@ var props = []propCfg{
 			{Name: "TestBufs", Rapid: true, Quick: 4000, Thorough: 100000, ShardsQ: 2, ShardsT: 4},
 			{Name: "TestFrt", Rapid: true, Quick: 24000, Thorough: 1200000, ShardsQ: 6, ShardsT: 12},
 		},
-		Rule:      "four rapid properties. dict: histories of Add/TryFind/ContainsKey/Item/Keys/Values/KVs/ToDict over a small key alphabet (string and int keys) against a Go map model, enumerations compared as multisets after every step; strings: every wrapper against the Go strings function with the pipeline argument order written out in the oracle, arguments built so that affixes/separators occur at the ends and repeatedly; buf: write sequences with interleaved reads, and histories over several buffers (new / write / read on any of them, a buffer created right after another one was read) against one string model per buffer; frt: Pipe/PipeUnit/IfElse/IfElseUnit/IfOnly with call counters, tuple round trips, Sprintf1/2 vs fmt (each verb alone and inside literal text with %% before and after it), Printf1 / Println with stdout captured through a pipe (formats with %%, arguments containing %), SInterP over every integer kind, floats, strings, named types, structs, slices, nil. Non-trivial = dict history with an overwrite and an absent-key lookup | string case whose two string arguments differ | buf case with >= 2 writes | formatting case of unsigned or float kind, or any control-helper case; distinct = hash of the concrete case.",
+		Rule:      "four rapid properties. dict: histories of Add/TryFind/ContainsKey/Item/Keys/Values/KVs/ToDict over a small key alphabet (string and int keys) against a Go map model, enumerations compared as multisets after every step; strings: every wrapper against the Go strings function with the pipeline argument order written out in the oracle, arguments built so that affixes/separators occur at the ends and repeatedly; buf: write sequences with interleaved reads, and histories over several buffers (new / write / read on any of them, a buffer created right after another one was read) against one string model per buffer; frt: Pipe/PipeUnit/IfElse/IfElseUnit/IfOnly with call counters, tuple round trips, Sprintf1/2 vs fmt (each verb alone and inside literal text with %% before and after it), Printf1 / Println with stdout captured through a pipe (formats with %%, arguments containing %), SInterP over every integer kind, floats, strings, named types, structs, slices, nil. SInterP is also called without holes (the compiler still writes % as %%) and with three holes. Non-trivial = dict history with an overwrite and an absent-key lookup | string case whose two string arguments differ | buf case with >= 2 writes | formatting case of unsigned or float kind, or any control-helper case; distinct = hash of the concrete case.",
 		Technique: "property-based testing (rapid): model-based state machine for dict, differential against the Go standard library for strings/fmt, counters for the control helpers",
 		Assumptions: []string{
 			"floats only have to render as text that parses back to the value within 1e-6 relative tolerance (the statement promises 'without failing', not a format)",
@@ -139,7 +139,7 @@ var props = []propCfg{
 			{Name: "TestMatchContexts", Rapid: true, Quick: 3200, Thorough: 64000, ShardsQ: 16, ShardsT: 16},
 			{Name: "TestMatchSequences", Rapid: true, Quick: 3200, Thorough: 64000, ShardsQ: 16, ShardsT: 16},
 		},
-		Rule:      "exhaustive part: unions with n = 1..4 cases x payload mask (2^n) x every non-empty ordered subset of arms x arm form per arm (payload case: bind-and-use / `_` / no pattern; no-payload case: bare) x with/without trailing default = 21,576 candidates on every run; n = 5 with fixed arm forms sampled 1-in-7 in quick and all 405,120 candidates in thorough. Expected-reject candidates cost one fc run each (sentinel gen file in place beforehand); expected-accept candidates share files of up to 60 functions and are re-decided alone on any surprise. Sampled part (rapid): the match placed in a let right-hand side, either if branch, a first/last arm of an outer match, an arm of an outer union or string match that continues with its own `| _ ->` arm at the outer column, (must-reject candidates only) a target fc cannot type where the match is parsed - an un-annotated lambda parameter, slice.Head us - and an extra non-binding arm naming a case of another union or an undeclared name, a lambda with annotated parameter, a local function, on a let-bound value; over plain, generic, and-group and other-file union declarations. Sequences (rapid): 2..4 matches on the SAME union in one file (each in its own function and context, usually accepted ones first, the last one optionally nested in an arm of an exhaustive match on the same union): the file is rejected iff some match must be, and the diagnostic names a case the first offending match leaves uncovered - the decision for a match must not depend on the matches processed before it. Must-reject candidates also come with a repeated arm, a foreign or undeclared case name, and an un-annotated (not yet typed) target; accept candidates also stand after an earlier arm / an earlier match whose payload binder has the name of the matched parameter. Oracle: reject <=> (no default and a case missing); reject = non-zero exit, every KaseN named in the diagnostic is really uncovered (and at least one is named), sentinel gen file untouched; accept = exit 0, gen file written, the emitted type switch lists exactly the source arms in order plus the user default or the never-reached panic. Non-trivial = >= 2 arms not in declaration order, or a missing case that is not the last declared one; distinct = hash of the candidate.",
+		Rule:      "exhaustive part: unions with n = 1..4 cases x payload mask (2^n) x every non-empty ordered subset of arms x arm form per arm (payload case: bind-and-use / `_` / no pattern; no-payload case: bare) x with/without trailing default = 21,576 candidates on every run; n = 5 with fixed arm forms sampled 1-in-7 in quick and all 405,120 candidates in thorough. Expected-reject candidates cost one fc run each (sentinel gen file in place beforehand); expected-accept candidates share files of up to 60 functions and are re-decided alone on any surprise. Sampled part (rapid): the match placed in a let right-hand side, either if branch, a first/last arm of an outer match, an arm of an outer union or string match that continues with its own `| _ ->` arm at the outer column, (must-reject candidates only) a target fc cannot type where the match is parsed - an un-annotated lambda parameter, slice.Head us - and an extra non-binding arm naming a case of another union or an undeclared name, a lambda with annotated parameter, a local function, on a let-bound value; over plain, generic, and-group and other-file union declarations. Sequences (rapid): 2..4 matches on the SAME union in one file (each in its own function and context, usually accepted ones first, the last one optionally nested in an arm of an exhaustive match on the same union): the file is rejected iff some match must be, and the diagnostic names a case the first offending match leaves uncovered - the decision for a match must not depend on the matches processed before it. Must-reject candidates also come with a repeated arm, a foreign or undeclared case name, and an un-annotated (not yet typed) target; accept candidates also stand after an earlier arm / an earlier match whose payload binder has the name of the matched parameter. Targets may also be built on the spot from a payload case (a constructor application, a let of one with an un-annotated argument, the result of a generic function), so that the type argument of a generic union is still undetermined when the match is parsed. Oracle: reject <=> (no default and a case missing); reject = non-zero exit, every KaseN named in the diagnostic is really uncovered (and at least one is named), sentinel gen file untouched; accept = exit 0, gen file written, the emitted type switch lists exactly the source arms in order plus the user default or the never-reached panic. Non-trivial = >= 2 arms not in declaration order, or a missing case that is not the last declared one; distinct = hash of the candidate.",
 		Technique: "exhaustive enumeration of the bounded domain + property-based testing (rapid) for nesting contexts, against the property's own biconditional as oracle",
 		Assumptions: []string{
 			"the matched value has a declared union type where the match is written (annotated parameter / let-bound from one), as section 3 of DESIGN.md derives from the documents",
@@ -170,7 +170,7 @@ var props = []propCfg{
 		Tests: []testCfg{
 			{Name: "TestReadme", Rapid: true, Quick: 3200, Thorough: 80000, ShardsQ: 16, ShardsT: 16},
 		},
-		Rule:      "rapid draws a directory: 0..8 list entries `name[.fo] [title words]` (titles with several and doubled spaces, entries without title, names without .fo, the same file listed twice), empty lines anywhere in the list, final newline present or not, the tool invoked with a relative, absolute or sub-directory list path; file contents (one in twenty continues with a 70,000-character line, 30,000 short lines or 15 KB without a line end) are lines chosen to look like README structure (code fences, ### headings, the header line, a 'generated go:' link, CR, tabs, UTF-8) or raw text. One case in six makes a listed file unreadable (missing / a directory) with a sentinel README in place. List lines may end in CR LF and one listed file may be bulky (thousands of lines). Oracle: a sequential consumer of README.md in the list's directory (header, then per non-empty list line in order: `### <title>`, opening fence, exactly the file's bytes consumed by length, closing fence, the gen_<base>.go link; only blank lines between elements, nothing after the last); fault cases: non-zero exit and the sentinel README intact. Non-trivial = >= 2 entries with at least one multi-word title and one entry without title; distinct = hash of the case.",
+		Rule:      "rapid draws a directory: 0..8 list entries `name[.fo] [title words]` (titles with several and doubled spaces, entries without title, names without .fo, the same file listed twice), empty lines anywhere in the list, final newline present or not, the tool invoked with a relative, absolute or sub-directory list path; file contents (one in twenty continues with a 70,000-character line, 30,000 short lines or 15 KB without a line end) are lines chosen to look like README structure (code fences, ### headings, the header line, a 'generated go:' link, CR, tabs, UTF-8) or raw text. One case in six makes a listed file unreadable (missing / a directory) with a sentinel README in place. List lines may end in CR LF and one listed file may be bulky (thousands of lines). Titles, names and contents also contain % verbs, braces and markdown characters. Oracle: a sequential consumer of README.md in the list's directory (header, then per non-empty list line in order: `### <title>`, opening fence, exactly the file's bytes consumed by length, closing fence, the gen_<base>.go link; only blank lines between elements, nothing after the last); fault cases: non-zero exit and the sentinel README intact. Non-trivial = >= 2 entries with at least one multi-word title and one entry without title; distinct = hash of the case.",
 		Technique: "property-based testing (rapid) of the rebuilt tool against a sequential reference reader of the documented README layout",
 		Assumptions: []string{
 			"blank-line counts between the elements are not part of the property (exact bytes of the shipped README are C04's business)",
@@ -190,7 +190,7 @@ var props = []propCfg{
 			{Name: "TestKnown", ShardsQ: 1, ShardsT: 1},
 			{Name: "TestNativeFuzz", ShardsQ: 1, ShardsT: 1},
 		},
-		Rule:      "seeds: every samples/*.fo, build_sample_md.fo and the hand-kept programs in corpus/seeds. Mutants (rapid, 1..3 composed): truncation, token deletion/duplication/swap/replacement, indentation damage (+-k columns, tabs), an opener (comment, string, raw string, interpolation, brace, bracket, keyword) inserted anywhere or left open at end of file with/without final newline, raw bytes (NUL, 0xff, CR, partial UTF-8, BOM), line deletion/duplication/swap, a slice of another seed spliced in, span deletion, and a family of 18 self-referential definitions appended. Exhaustive parts: every truncation offset of the 4 (quick) / 14 (thorough) smallest seeds; a fixed list of argument-list faults (no arguments, missing input, directory as input, empty file, .fo after a failing .fo, .foi only), output-path faults (destination is a directory, a dangling symlink, a symlink to /dev/full; also as second file) and every opener left open at end of file. Scale (rapid): 39 templates that repeat or nest one construct N times (nested parentheses / applications / not / slice literals / lambdas / if-else, operator and pipe chains, many lets / functions / parameters / record fields / union cases / match arms / package_info entries, long literals, identifiers, comments, lines, indentation, nested and long types), N drawn on a logarithmic scale up to a per-template bound at which fc's polynomial running time stays far below the time limit. Every scale input ends with one more definition whose translation must be present when fc exits 0 (completely written). Oracle: fc ends within 15 s (re-confirmed alone with 120 s), is not killed by a signal and prints no Go runtime fatal error; exit 0 => every requested gen_*.go exists, is not the sentinel and equals what a second run in a fresh directory writes; exit != 0 => some text beyond the progress lines was printed and the sentinel at the offending (and every later) file's destination is intact. Thorough tier only: 7 minutes of Go's native coverage-guided fuzzer on an in-process copy of the compiler (fc's Go files copied inside the scratch snapshot plus one fuzz target; pkg_all.foi, then the input, fresh global tables, 10 s watchdog), seeded with the same seeds and hostile constants; every input the fuzzer reports is re-decided with the real binary through the oracle above and only a confirmed one is a violation; executions are counted as evaluations, the inputs the fuzzer kept for new coverage as non-trivial. Argument-list faults include arguments ending in neither .fo nor .foi (upper-case suffix, no suffix, empty string, a directory) next to good files; the completeness run starts from a stale, longer gen file half the time; scale templates (TestScale) grow 39 shapes to sizes bounded by the known findings. Non-trivial = rejected mutants whose first changed byte lies after the seed's first complete definition, accepted mutants that differ from the seed, and all fault cases; distinct = hash of the file content / case.",
+		Rule:      "seeds: every samples/*.fo, build_sample_md.fo and the hand-kept programs in corpus/seeds. Mutants (rapid, 1..3 composed): truncation, token deletion/duplication/swap/replacement, indentation damage (+-k columns, tabs), an opener (comment, string, raw string, interpolation, brace, bracket, keyword) inserted anywhere or left open at end of file with/without final newline, raw bytes (NUL, 0xff, CR, partial UTF-8, BOM), line deletion/duplication/swap, a slice of another seed spliced in, span deletion, and a family of 18 self-referential definitions appended. Exhaustive parts: every truncation offset of the 4 (quick) / 14 (thorough) smallest seeds; a fixed list of argument-list faults (no arguments, missing input, directory as input, empty file, .fo after a failing .fo, .foi only), output-path faults (destination is a directory, a dangling symlink, a symlink to /dev/full; also as second file) and every opener left open at end of file. Scale (rapid): 39 templates that repeat or nest one construct N times (nested parentheses / applications / not / slice literals / lambdas / if-else, operator and pipe chains, many lets / functions / parameters / record fields / union cases / match arms / package_info entries, long literals, identifiers, comments, lines, indentation, nested and long types), N drawn on a logarithmic scale up to a per-template bound at which fc's polynomial running time stays far below the time limit. Every scale input ends with one more definition whose translation must be present when fc exits 0 (completely written). Oracle: fc ends within 15 s (re-confirmed alone with 120 s), is not killed by a signal and prints no Go runtime fatal error; exit 0 => every requested gen_*.go exists, is not the sentinel and equals what a second run in a fresh directory writes; exit != 0 => some text beyond the progress lines was printed and the sentinel at the offending (and every later) file's destination is intact. Thorough tier only: 7 minutes of Go's native coverage-guided fuzzer on an in-process copy of the compiler (fc's Go files copied inside the scratch snapshot plus one fuzz target; pkg_all.foi, then the input, fresh global tables, 10 s watchdog), seeded with the same seeds and hostile constants; every input the fuzzer reports is re-decided with the real binary through the oracle above and only a confirmed one is a violation; executions are counted as evaluations, the inputs the fuzzer kept for new coverage as non-trivial. Argument-list faults include arguments ending in neither .fo nor .foi (upper-case suffix, no suffix, empty string, a directory) next to good files; the completeness run starts from a stale, longer gen file half the time; scale templates (TestScale) grow 39 shapes to sizes bounded by the known findings. A chain of records each mentioning the next one twice is bounded at 10 links (known finding D27). Non-trivial = rejected mutants whose first changed byte lies after the seed's first complete definition, accepted mutants that differ from the seed, and all fault cases; distinct = hash of the file content / case.",
 		Technique: "mutation-based fuzzing of valid programs driven by rapid (shrinkable), exhaustive truncation sweeps and fault enumeration, with a process-behaviour validity oracle",
 		Assumptions: []string{
 			"an ordinary Go panic message with non-zero exit is a diagnostic (the project documents that errors are panics); only runtime fatal errors, signals and hangs are not",
@@ -208,7 +208,7 @@ var props = []propCfg{
 			{Name: "TestKnown", ShardsQ: 1, ShardsT: 1},
 			{Name: "TestPrograms", Rapid: true, Quick: 320, Thorough: 6400, ShardsQ: 16, ShardsT: 16},
 		},
-		Rule:      "type-directed generation (rapid) of whole programs of the documented subset: shared record/union declarations (incl. self-referential ones), a prelude with the probe function and generic helpers, 1..8 units (helper functions, a recursive template, an entry function, one printing line in main), bodies built from lets, destructuring, function-valued lets, local functions (closures), lambdas, partial application of user / library / constructor functions, pipes and pipe chains, if/elif/else as statement and value, union match (all arm forms, default, any order) and string match (variable arm / default), records (permuted and qualified literals, field access, _.Field), tuples, slices, the operators, the four string literal forms (plain ones with \\t \\n \\\" \\\\ escapes) and standard-library calls incl. buf.Buffer episodes (writes direct, piped, under an if, through a partial application or a closure handed to slice.Iter) and dict.Dict episodes (dict.New with explicit type arguments / dict.ToDict, overwriting Adds, TryFind / ContainsKey / Item incl. absent keys, Keys / Values / KVs only through slice.Sort or slice.Length); one let in four reuses the name of a variable of an enclosing block (shadowing); mixed && / || chains of 3..4 probed operands grouped to either side; a one-line if without else as last statement of a then-block that is followed by else; a union / string match with valued arms written as a statement (value discarded); formats with %% and strings containing %; int literals at the widths 2^8 .. 2^53; effect probes (trace \"tN\" e) on about a fifth of the sub-expressions and on both sides of && / ||, both if branches and match arms. Also generated: prelude functions that return functions (a value-returning and a unit-returning one) used as pipe stages and slice.Iter arguments, unions some of whose cases carry a function that is applied in its arm, match payload binders that shadow the matched variable, discarded match values in statement position, dictionary and buffer episodes. Oracle: fc must accept, go build must succeed, the binary must exit 0 and its stdout must equal, byte for byte, the trace of the independent reference evaluator (strict, left-to-right, lexical scoping). Plus the hand-kept corpus corpus/seeds/*.fo with hand-derived expected output. Non-trivial = the expected output contains at least one probe line and the program uses at least one of partial application / closure capture / match / if-as-value / pipe / lambda; distinct = hash of the source text.",
+		Rule:      "type-directed generation (rapid) of whole programs of the documented subset: shared record/union declarations (incl. self-referential ones), a prelude with the probe function and generic helpers, 1..8 units (helper functions, a recursive template, an entry function, one printing line in main), bodies built from lets, destructuring, function-valued lets, local functions (closures), lambdas, partial application of user / library / constructor functions, pipes and pipe chains, if/elif/else as statement and value, union match (all arm forms, default, any order) and string match (variable arm / default), records (permuted and qualified literals, field access, _.Field), tuples, slices, the operators, the four string literal forms (plain ones with \\t \\n \\\" \\\\ escapes) and standard-library calls incl. buf.Buffer episodes (writes direct, piped, under an if, through a partial application or a closure handed to slice.Iter) and dict.Dict episodes (dict.New with explicit type arguments / dict.ToDict, overwriting Adds, TryFind / ContainsKey / Item incl. absent keys, Keys / Values / KVs only through slice.Sort or slice.Length); one let in four reuses the name of a variable of an enclosing block (shadowing); mixed && / || chains of 3..4 probed operands grouped to either side; a one-line if without else as last statement of a then-block that is followed by else; a union / string match with valued arms written as a statement (value discarded); formats with %% and strings containing %; int literals at the widths 2^8 .. 2^53; effect probes (trace \"tN\" e) on about a fifth of the sub-expressions and on both sides of && / ||, both if branches and match arms. Also generated: prelude functions that return functions (a value-returning and a unit-returning one) used as pipe stages and slice.Iter arguments, unions some of whose cases carry a function that is applied in its arm, match payload binders that shadow the matched variable, discarded match values in statement position, dictionary and buffer episodes. A match may stand as an argument of a call or of a partial application used as a pipe stage (probed arguments on both sides, arms on continuation lines); destructuring lets may rebind a name their tuple literal still reads; field access chains a.B.C. Probes per definition are capped (fc allots 100 type variables per top-level definition). Oracle: fc must accept, go build must succeed, the binary must exit 0 and its stdout must equal, byte for byte, the trace of the independent reference evaluator (strict, left-to-right, lexical scoping). Plus the hand-kept corpus corpus/seeds/*.fo with hand-derived expected output. Non-trivial = the expected output contains at least one probe line and the program uses at least one of partial application / closure capture / match / if-as-value / pipe / lambda; distinct = hash of the source text.",
 		Technique: "property-based testing (rapid) with a type-directed program generator, differential against an independent reference evaluator; compile-and-run of the emitted Go",
 		Assumptions: []string{
 			"programs stay inside the documented subset written down in DESIGN.md section 3 (each restriction with its source); steering counts are reported in the samples",
@@ -226,7 +226,7 @@ var props = []propCfg{
 			{Name: "TestLayouts", Rapid: true, Quick: 640, Thorough: 16000, ShardsQ: 16, ShardsT: 16},
 			{Name: "TestDedent", Rapid: true, Quick: 640, Thorough: 8000, ShardsQ: 8, ShardsT: 16},
 		},
-		Rule:      "a generated program of the full profile (1..3 units) is printed once in the canonical layout and three times with a random layout plan whose every decision is an independent rapid draw inside the layout grammar of the statement: body indentation 1..9 per block, blank lines, trailing spaces, own-line // and /* */ comments (also spanning lines, and texts such as /*/ note */, /***/, /* // */, // /* not open) at any indentation, trailing comments, one-line vs multi-line if, a let right-hand side or a match arm body on the same or the next line, a multi-line arm body started on the -> line and continued under its first token, a line break before any |> (aligned or block form), one-line vs multi-line record declarations, indentation of union cases and match arms; all must yield byte-identical gen_prog.go (one evaluation = one re-laid-out text). Layout decisions also cover: an arm body starting on the -> line, match arms offset to the left or right of `match` after a next-line let right-hand side, a one-line if before an outer else, comments of the /*/ shape. Converse direction (TestDedent): hand-templated nested blocks (if-only, else branch, match arm, local function) with a marked statement written at the outer column and at the inner column: the two must give different Go, and re-indenting the inner block by another amount must give the same Go again. Non-trivial (layouts) = the plan deviates from canonical in >= 3 kinds of choice and the program reaches nesting depth >= 3; all dedent cases are non-trivial; distinct = hash of the re-laid-out text.",
+		Rule:      "a generated program of the full profile (1..3 units) is printed once in the canonical layout and three times with a random layout plan whose every decision is an independent rapid draw inside the layout grammar of the statement: body indentation 1..9 per block, blank lines, trailing spaces, own-line // and /* */ comments (also spanning lines, and texts such as /*/ note */, /***/, /* // */, // /* not open) at any indentation, trailing comments, one-line vs multi-line if, a let right-hand side or a match arm body on the same or the next line, a multi-line arm body started on the -> line and continued under its first token, a line break before any |> (aligned or block form), one-line vs multi-line record declarations, indentation of union cases and match arms; all must yield byte-identical gen_prog.go (one evaluation = one re-laid-out text). Layout decisions also cover: an arm body starting on the -> line, match arms offset to the left or right of `match` after a next-line let right-hand side, a one-line if before an outer else, comments of the /*/ shape. Comments may also follow a line that opens a block (after = -> then else with {) and surround record fields and union cases. Converse direction (TestDedent): hand-templated nested blocks (if-only, else branch, match arm, local function) with a marked statement written at the outer column and at the inner column: the two must give different Go, and re-indenting the inner block by another amount must give the same Go again. Non-trivial (layouts) = the plan deviates from canonical in >= 3 kinds of choice and the program reaches nesting depth >= 3; all dedent cases are non-trivial; distinct = hash of the re-laid-out text.",
 		Technique: "metamorphic property-based testing (rapid): same abstract program, different concrete layout => identical output; and its converse",
 		Assumptions: []string{
 			"layouts stay inside the grammar the property lists (no tabs, code never follows a multi-line comment on its last line)",
@@ -257,7 +257,7 @@ var props = []propCfg{
 		Tests: []testCfg{
 			{Name: "TestDeterminism", Rapid: true, Quick: 320, Thorough: 8000, ShardsQ: 16, ShardsT: 16},
 		},
-		Rule:      "programs of the many-dicts profile: >= 3 records (half of them with a twin record that has exactly the same field names, so unqualified literals are ambiguous) and >= 2 unions, 1..3 generated units with matches and lambdas, three package_info blocks (one for package _, one declaring three types that are used by name in annotations) with 3..7 entries each plus functions that use them and a function with 6 un-annotated parameters, some parameter annotations erased, and deliberately broken variants (a union arm removed => non-exhaustive match, an unknown identifier) for the accept/reject half. Each program is run under 9 enumeration orders: 3 repetitions of the unmodified fc in fresh processes (Go's random map order) and fc built with a build-time overlay of pkg/dict (derived from the current dict.go) whose Keys/Values/KVs return the entries sorted, reversed, rotated by a drawn amount, in 3 drawn shuffles, and twice in the mode where every single enumeration gets its own shuffle (two range loops over one Go map need not agree, so Keys d and Values d may not correspond). The program pool includes two hand-templated functions whose equivalence classes stay unresolved across a let (field access on an undetermined record / any), and package_info blocks with three types. Oracle: every run has the same accept/reject decision and byte-identical gen_prog.go (diagnostic text is not compared). One evaluation = one fc run. Non-trivial = the program puts >= 2 entries into at least two of the dictionaries fc enumerates (record table, package_info tables, equivalence sets of inference variables) and was run under >= 3 orders; distinct = hash of the source.",
+		Rule:      "programs of the many-dicts profile: >= 3 records (half of them with a twin record that has exactly the same field names, so unqualified literals are ambiguous) and >= 2 unions, 1..3 generated units with matches and lambdas, three package_info blocks (one for package _, one declaring three types that are used by name in annotations) with 3..7 entries each plus functions that use them and a function with 6 un-annotated parameters, some parameter annotations erased, and deliberately broken variants (a union arm removed => non-exhaustive match, an unknown identifier) for the accept/reject half. Each program is run under 9 enumeration orders: 3 repetitions of the unmodified fc in fresh processes (Go's random map order) and fc built with a build-time overlay of pkg/dict (derived from the current dict.go) whose Keys/Values/KVs return the entries sorted, reversed, rotated by a drawn amount, in 3 drawn shuffles, and twice in the mode where every single enumeration gets its own shuffle (two range loops over one Go map need not agree, so Keys d and Values d may not correspond). The program pool includes two hand-templated functions whose equivalence classes stay unresolved across a let (field access on an undetermined record / any), and package_info blocks with three types. One program in four is made untidy: an import written twice, unused or repeated extra imports. Oracle: every run has the same accept/reject decision and byte-identical gen_prog.go (diagnostic text is not compared). One evaluation = one fc run. Non-trivial = the program puts >= 2 entries into at least two of the dictionaries fc enumerates (record table, package_info tables, equivalence sets of inference variables) and was run under >= 3 orders; distinct = hash of the source.",
 		Technique: "metamorphic property-based testing (rapid) with controlled nondeterminism: the same input under adversarial dictionary enumeration orders (build-time overlay) and repeated processes must give identical output",
 		Assumptions: []string{
 			"fc consults no clock, environment or goroutine scheduling; dictionary order and process identity are the only sources of nondeterminism explored",
@@ -306,7 +306,7 @@ var props = []propCfg{
 			{Name: "TestForeignCalls", Rapid: true, Quick: 160, Thorough: 3200, ShardsQ: 16, ShardsT: 16},
 			{Name: "TestRecursiveDeclarations", Rapid: true, Quick: 160, Thorough: 3200, ShardsQ: 16, ShardsT: 16},
 		},
-		Rule:      "(i) declarations: 2..5 random record / union declarations (generic or not, upper- and lower-case type and field names, field and payload types over int/string/bool/slices/2- and 3-tuples/earlier records and unions/type parameters), and per used type a Folang function with a unit parameter that builds a value, a top-level variable (read by the Go client through its address; a quarter of the uses add a top-level variable holding a lambda, which the client wraps with a counting function before a Folang function calls it), a function showing a value, a function with unit result, an identity function, plus functions with 2..4 parameters; together with a GENERATED GO CLIENT in the same package that uses them only through the documented names: struct literals R{F: v} / R[int]{...} and field reads, New_U_C(v), the New_U_C variable, New_U_C[T](v) / New_U_C[T]() for generic unions, a type switch over U_C reading .Value, frt.Tuple2/3 literals with E0..E2, calls f(a, b) in parameter order, no parameter for (), no result for unit, package variables. (ii) foreign calls: random package_info blocks for package _ (implemented in the client file) and for a named sibling Go package, with 1..4-ary signatures over int/string/bool/[]int/opaque types/type parameters and generated Go implementations that print their arguments in order and return a value computed from them; Folang call sites in every arity from 1 to full: direct, through a let-bound partial application, as a pipe stage, as a higher-order argument, with explicit type arguments; a quarter of the non-generic functions get a type parameter that occurs only in the result ([]R, zero values printed), which Go cannot infer and which is therefore instantiated explicitly in every call form incl. the bare reference `x |> F<int>`. (iii) self-referential and `and`-group declarations: 1..3 groups of 1..3 records / unions whose fields and payloads mention the type being defined or another (earlier or later) member of the group below a drawn type constructor ([]X, dict.Dict<string, X>, []Bx<X>, Op<X>, int*[]X, Op<int>*Op<X>, Bx<Bx<X>>, X itself where Go allows it, ...); the Go client states the documented Go type of every such field / payload in a function signature (func chk(x Ty3) dict.Dict[string, Ty2] { return x.F3a }). Record literals on the Folang side list their fields in a drawn order; records are also built by functions with un-annotated parameters that the Go client calls with typed arguments; foreign functions with phantom type parameters; top-level variables read through their address and a top-level lambda variable wrapped by the Go client; names with underscores. Oracle: the whole package (gen_decl.go + client.go [+ sibling package]) compiles and its stdout equals what the documented representation and the foreign functions' own printing predict. Non-trivial = a generic declaration used from Go, or a foreign function of arity >= 3 applied partially; distinct = hash of the case.",
+		Rule:      "(i) declarations: 2..5 random record / union declarations (generic or not, upper- and lower-case type and field names, field and payload types over int/string/bool/slices/2- and 3-tuples/earlier records and unions/type parameters), and per used type a Folang function with a unit parameter that builds a value, a top-level variable (read by the Go client through its address; a quarter of the uses add a top-level variable holding a lambda, which the client wraps with a counting function before a Folang function calls it), a function showing a value, a function with unit result, an identity function, plus functions with 2..4 parameters; together with a GENERATED GO CLIENT in the same package that uses them only through the documented names: struct literals R{F: v} / R[int]{...} and field reads, New_U_C(v), the New_U_C variable, New_U_C[T](v) / New_U_C[T]() for generic unions, a type switch over U_C reading .Value, frt.Tuple2/3 literals with E0..E2, calls f(a, b) in parameter order, no parameter for (), no result for unit, package variables. (ii) foreign calls: random package_info blocks for package _ (implemented in the client file) and for a named sibling Go package, with 1..4-ary signatures over int/string/bool/[]int/opaque types/type parameters and generated Go implementations that print their arguments in order and return a value computed from them; Folang call sites in every arity from 1 to full: direct, through a let-bound partial application, as a pipe stage, as a higher-order argument, with explicit type arguments; a quarter of the non-generic functions get a type parameter that occurs only in the result ([]R, zero values printed), which Go cannot infer and which is therefore instantiated explicitly in every call form incl. the bare reference `x |> F<int>`. (iii) self-referential and `and`-group declarations: 1..3 groups of 1..3 records / unions whose fields and payloads mention the type being defined or another (earlier or later) member of the group below a drawn type constructor ([]X, dict.Dict<string, X>, []Bx<X>, Op<X>, int*[]X, Op<int>*Op<X>, Bx<Bx<X>>, X itself where Go allows it, ...); the Go client states the documented Go type of every such field / payload in a function signature (func chk(x Ty3) dict.Dict[string, Ty2] { return x.F3a }). Record literals on the Folang side list their fields in a drawn order; records are also built by functions with un-annotated parameters that the Go client calls with typed arguments; foreign functions with phantom type parameters; top-level variables read through their address and a top-level lambda variable wrapped by the Go client; names with underscores. Generic records and unions come with one or two type parameters (with two, case i of a union carries parameter i as it is, so constructors must list their type parameters in the declared order). Oracle: the whole package (gen_decl.go + client.go [+ sibling package]) compiles and its stdout equals what the documented representation and the foreign functions' own printing predict. Non-trivial = a generic declaration used from Go, or a foreign function of arity >= 3 applied partially; distinct = hash of the case.",
 		Technique: "property-based testing (rapid) with generated Go client code and generated Go implementations: differential between the documented representation and what fc emits, decided by compiling and running",
 		Assumptions: []string{
 			"the documented representation is the one in the property statement (docs/specs/union.md, note.md, tutorial 4)",
